@@ -257,7 +257,7 @@ class C16(runner.Check):
                'Mermaid-subset parser, live-machine table reader and oracle in harness/diagram.py',
                'Mermaid backend only (graphviz/pygraphviz not importable offline)')
 
-    budgets = {'quick': (16, 70, 16, 70), 'thorough': (48, 350, 48, 350)}
+    budgets = {'quick': (16, 70, 16, 70), 'thorough': (48, 180, 48, 180)}
 
     def explore(self, tier, seed):
         fc, fn, hc, hn = self.budgets['quick' if tier == 'quick' else 'thorough']
@@ -270,9 +270,10 @@ class C16(runner.Check):
 
     def reduce(self, failures):
         done = set()
+        known = set(k.get('signature') for k in self.known())
         for f in failures:
             key = (f.kind, f.what, f.signature)
-            if key in done:
+            if key in done or f.signature in known:      # known findings are reported, not shrunk
                 continue
             done.add(key)
             if len(done) > 6:
